@@ -115,7 +115,11 @@ Definition obs_eqb (a b : obs) : bool := obs_eqb_raw (norm a) (norm b).
    (3) when a session ends (bye) or expires it is gone, and no publisher or
        subscriber, open at the media server or resolvable through the client
        table, belongs to a session that is gone; when the media server
-       connection is lost every object that existed is closed and unresolvable
+       connection is lost every object that existed is closed and unresolvable;
+       at every quiet point everything open at the media server (publishers,
+       subscribers, and the remote publishers behind remote subscribers) is in
+       the table of the session that created it, so that the end of that session
+       closes it
        (OByeIn / OExpireIn: the same bye / expiry with creations completing while
        the close runs; observed when the close has returned);
    (4) a delete that has any effect (confirmation, or the object disappears) was
@@ -190,8 +194,22 @@ Definition chk_prehello (b : bindings) (prev : obs) (o : op) (ob : obs) : bool :
   end.
 
 (* (3) *)
+(* e is in the publisher / subscriber table of the session that created it.  An
+   object open at the media server that is in no table has no owner: no close of
+   a session, no delete and no loss of the media server will ever close it (this
+   is how a remote publisher whose creation reference was not given back shows:
+   the harness lists a remote publisher that is still referenced under the
+   creation request it was made for, see model/Proxy.v "remote subscribers"). *)
+Definition owned_in (rows : list (N * list N * list N)) (e : entry) : bool :=
+  existsb (fun x => N.eqb (fst (fst x)) (e_owner e) &&
+                    match e_kind e with
+                    | Pub => memN (e_id e) (snd (fst x))
+                    | Sub => memN (e_id e) (snd x)
+                    end) rows.
+
 Definition chk_cleanup (b : bindings) (prev : obs) (o : op) (ob : obs) : bool :=
   forallb (fun e => memN (e_owner e) (sids ob)) (ob_clients ob ++ ob_open ob) &&
+  forallb (owned_in (ob_sessions ob)) (ob_open ob) &&
   match o with
   | OMcuLost =>
       forallb (fun e => negb (memN (e_id e) (ids (ob_clients ob))) && negb (memN (e_id e) (ids (ob_open ob))))
